@@ -11,7 +11,8 @@ S5 = Tup(STR, STR, STR, STR, STR)
 cls('TimeSeriesHolder', fields=dict(TimeSeriesName=STR, SortPriority=S5), dict_kv=(STR, List(FLOAT)))
 
 # equation.py
-cls('Term', fields=dict(Constant=FLOAT, Term=STR, IsSimple=BOOL, IsBlob=BOOL))
+# owner_ / pos_ are GHOST fields (set only by sidecar ghost code): the Equation whose TermList holds the term, and its index
+cls('Term', fields=dict(Constant=FLOAT, Term=STR, IsSimple=BOOL, IsBlob=BOOL, owner_=Ref('Equation'), pos_=INT))
 cls('Equation', fields=dict(LeftHandSide=STR, Description=STR, TermList=List(Ref('Term'))))
 cls('EquationBlock', fields=dict(Equations=Dict(STR, Ref('Equation'))))
 
